@@ -168,6 +168,7 @@ func (p *Parser) ParseWithRecoveryFromModelTokens(tokens []models.TokenWithSpan)
 // parseWithRecovery is the internal implementation shared by both public APIs.
 func (p *Parser) parseWithRecovery(tokens []token.Token) ([]ast.Statement, []error) {
 	p.tokens = tokens
+	p.positions = nil // no position table for this token stream
 	p.currentPos = 0
 	if len(tokens) > 0 {
 		p.currentToken = tokens[0]
